@@ -36,6 +36,7 @@ type Program struct {
 
 // Func is a declared function, method or function literal of a repo package.
 type Func struct {
+	progFuncs map[*types.Func]*Func // the program's function index (set by Load)
 	idxLoops map[types.Object]ast.Expr // index variable of a canonical index loop -> collection
 	Pkg   *packages.Package
 	Decl  *ast.FuncDecl
@@ -171,7 +172,7 @@ func (p *Program) indexPkg(pk *packages.Package) {
 			if obj == nil {
 				continue
 			}
-			f := &Func{Pkg: pk, Decl: fd, Obj: obj, Body: fd.Body, Type: fd.Type, Name: funcName(obj)}
+			f := &Func{Pkg: pk, Decl: fd, Obj: obj, Body: fd.Body, Type: fd.Type, Name: funcName(obj), progFuncs: p.Funcs}
 			if sig, ok := obj.Type().(*types.Signature); ok {
 				f.Recv = sig.Recv()
 			}
